@@ -1235,6 +1235,7 @@ def selftest():
         "keybulk": ("keytree", "scale", {"rounds": "D", "deep": 300, "seed": 3}),
         "ordsweep": ("maptree-i32", "scale", {"plan": "", "sweep_lo": 9, "sweep_hi": 12, "seed": 3}),
         "segdense": ("seg-i32", "dense", {"lo": -7, "hi": 40, "seed": 3, "inject": 0, "bulk": 60}),
+        "segsum": ("seg-i32", "dense", {"lo": 0, "hi": 31, "seed": 4, "inject": 0, "bulk": 6000}),
         "cnt": ("settree-cnt", "random", {"seed": 16, "keys": 8, "steps": 300, "seglen": 60}),
         "ind": ("maptree-i32", "ind", {"states": os.path.join(wd, "ind-states.txt"), "handles": 1}),
     }
@@ -1332,6 +1333,8 @@ def selftest():
     K.append(("seg bulk run shorter than logged", "segdense", "YIELD", isbulk, lambda e: e.update(n=e["n"] - 1)))
     K.append(("seg bulk expiration", "segdense", "YIELD", isbulk, lambda e: e.update(e=0)))
 
+    K.append(("seg summary count", "segsum", "COMPLETE", lambda e: e.get("op") == "queryn" and e.get("take") == -1, lambda e: e.update(n=e["n"] - 1, nd=e["nd"] - 1)))
+    K.append(("seg summary duplicate", "segsum", "YIELD", lambda e: e.get("op") == "queryn", lambda e: e.update(nd=e["nd"] - 1)))
     K.append(("payload instances left at drop", "cnt", "DROPS", lambda e: e.get("op") == "drop", lambda e: e.update(residue=-1)))
     K.append(("loaded start state not a red-black tree", "ind", "WF", lambda e: e.get("ev") == "load" and len(stored(e)) >= 3,
               lambda e: [n.__setitem__(3, 1) for n in e["snap"]["nd"]]))
